@@ -75,11 +75,57 @@ def oracle(line, out):
     return None
 
 
+def failing_source(rng, tier, info):
+    """the OS random source FAILS (OSError: out of file descriptors, no entropy device): always, or for the first k
+    requests.  A mnemonic that is handed out all the same comes from nowhere — whenever one is returned, the OS source
+    must have delivered at least ENT bits for it and the entropy must be exactly those bytes"""
+    import btc_hd_wallet.bip39 as b39
+    from btc_hd_wallet.base_wallet import BaseWallet
+    from .c12 import mnemonic as indep_mnemonic
+    n = 0
+    for ln, bits in LENS.items():
+        for fail_first in (10 ** 9, 1, 2, 3, 5):
+            for route in ("mnemonic_from_entropy_bits", "new_wallet"):
+                state = {"calls": 0, "given": []}
+                data = bytes(rng.getrandbits(8) for _ in range(64))
+
+                def stub(k, _st=state, _ff=fail_first, _d=data):
+                    _st["calls"] += 1
+                    if _st["calls"] <= _ff:
+                        raise OSError(24, "Too many open files")
+                    _st["given"].append(_d[:k])
+                    return _d[:k]
+                saved = (_random._urandom, os.urandom)
+                _random._urandom = stub
+                os.urandom = stub
+                try:
+                    try:
+                        m = b39.mnemonic_from_entropy_bits(bits) if route == "mnemonic_from_entropy_bits" else \
+                            BaseWallet.new_wallet(mnemonic_length=ln).mnemonic
+                    except Exception:
+                        m = None
+                finally:
+                    _random._urandom, os.urandom = saved
+                n += 1
+                if m is None:
+                    continue
+                got_bits = 8 * sum(len(x) for x in state["given"])
+                ok_ = got_bits >= bits and any(len(x) * 8 >= bits and indep_mnemonic(x[:bits // 8]) == m for x in state["given"])
+                if not ok_:
+                    yield ("# %s for %d words while the OS source raises OSError on its first %s requests" % (
+                        route, ln, "ALL" if fail_first > 100 else fail_first),
+                        "a mnemonic was handed out (%s ...) although the OS source delivered %d bits for it" % (
+                            " ".join(m.split(" ")[:3]), got_bits))
+                    return
+    info["failing_source_runs"] = n
+
+
 def extra_checks(rng, tier, g, info):
     """On the real code, with the REAL os.urandom observed from outside: request sizes, independence of the
     process-wide PRNG state, bit variation and distinctness."""
     import btc_hd_wallet.bip39 as b39
     from btc_hd_wallet.base_wallet import BaseWallet
+    yield from failing_source(rng, tier, info)
     real_urandom = os.urandom
     n_draw = 64 if tier == "quick" else 512
     calls = 0
